@@ -25,7 +25,7 @@ def specs(draw, tier):
     spec["ndrops"] = draw(st.integers(2, 6))
     spec["refine_args"] = draw(
         st.sampled_from(
-            [None, None, {"vmin": None, "vmax": None}, {"adjust_values": True}, {"tolerance": 1e-6}, {"least_squares_params": {}}, {"least_squares_params": {"max_nfev": 40}}, {"adjust_values": True, "least_squares_params": {"method": "trf"}}]
+            [None, None, {"vmin": None, "vmax": None}, {"adjust_values": True}, {"tolerance": 1e-6}, {"least_squares_params": {}}, {"least_squares_params": {"max_nfev": 40}}, {"adjust_values": True, "least_squares_params": {"method": "trf"}}, {"vmin": None, "vmax": None, "adjust_values": True, "least_squares_params": {}}, {"vmin": None, "vmax": None, "adjust_values": True, "least_squares_params": {}}]
         )
     )
     spec["modes"] = draw(st.sampled_from([0, 0, 2])) if dim == 2 else 0
@@ -69,6 +69,10 @@ def make_field(spec, grid, k=0):
             drops.append((p, r))
     em = Emulsion([DiffuseDroplet(p, r, 1.0) for p, r in drops])
     f = em.get_phasefield(grid)
+    if spec["seed"] % 3 == 0:  # droplets of different brightness (local contrast differs from candidate to candidate)
+        f.data[...] = 0.0
+        for d in em:
+            f.data += rng.uniform(0.7, 1.8) * d.get_phase_field(grid).data
     f.data += 0.01 * rng.standard_normal(f.data.shape)
     return f
 
@@ -98,7 +102,7 @@ class C15(Property):
     ]
 
     def budget(self, tier):
-        return {"examples": 96 if tier == "quick" else 1600, "shards": 16, "procs": 16}
+        return {"examples": 144 if tier == "quick" else 1600, "shards": 16, "procs": 16}
 
     def strategy(self, tier):
         return specs(tier)
